@@ -10,7 +10,11 @@ job = {H, W, L,
        extras  number of additional unused variables in the Dataset
        explicit_vars  True: data_vars=[names in layer order] is passed; False: the Dataset holds exactly the layers
                       (+ ref for the reference operators) in layer order and data_vars is left to its default
+       table   optional list of reals: "rank mode" - the real value of code c (layers AND ref) is table[c]; the
+               table is strictly increasing, so the codes are order-isomorphic to the values (near-tie datasets)
+       funcs   optional list of the operators to run and judge (default all); pop: run popularity (default true)
        full, pairs, tag}
+Any observed value that is not within tolerance of an admissible small exact value is encoded as BADR.
 """
 import json
 import math
@@ -26,7 +30,7 @@ import xrspatial  # noqa
 from xrspatial import local as LOC
 
 NAN = -99
-BADR = [123456789, 1]
+BADR = [0, -1]          # "not an admissible value": LocalOps!BadR, equal to nothing in the judge
 STATS = ["max", "mean", "median", "min", "std", "sum"]
 REFF = ["lesser_frequency", "equal_frequency", "greater_frequency", "rank"]
 POSF = ["lowest_position", "highest_position"]
@@ -62,10 +66,14 @@ def lay(a, name):
     raise ValueError(name)
 
 
-def decode(codes, dtype, scale):
+def decode(codes, dtype, scale, table=None):
     a = np.array(codes, dtype=np.float64)
     nan = a == NAN
-    a = a * scale
+    if table is not None:
+        t = np.array(list(table) + [0.0], dtype=np.float64)
+        a = t[np.where(nan, len(table), a).astype(np.int64)]
+    else:
+        a = a * scale
     if np.dtype(dtype).kind == "f":
         a[nan] = np.nan
         return a.astype(dtype)
@@ -88,9 +96,20 @@ def rat(v, scale, den, square=False):
     else:
         fr = Fraction(q).limit_denominator(den)
         ok = abs(float(fr) - q) <= 1e-9 * max(1.0, abs(q))
-    if not ok or abs(fr.numerator) > 10 ** 7:
+    if not ok or abs(fr.numerator) > 10 ** 6:
         return BADR
     return [fr.numerator, fr.denominator]
+
+
+def small_int(q):
+    """exact_int rule for tuple members / ids; -98 = anything else (never crashes, never leaves 32 bits)"""
+    try:
+        q = float(q)
+        if math.isnan(q) or math.isinf(q) or abs(q) > 10 ** 6 or abs(q - round(q)) > 1e-9:
+            return -98
+        return int(round(q))
+    except Exception:
+        return -98
 
 
 def grid(arr, enc):
@@ -106,8 +125,24 @@ def run_job(j):
     layouts = j.get("layouts") or ["C"] * L
     dtypes = j.get("dtypes") or ["float64"] * L
     names = ["v%d" % i for i in range(L)]
-    arrs = [lay(decode(j["layers"][i], dtypes[i], scale), layouts[i]) for i in range(L)]
-    ref = lay(np.array(j["ref"], dtype=j.get("ref_dtype", "int64")), j.get("ref_layout", "C"))
+    table = j.get("table")
+    funcs = j.get("funcs") or (STATS + REFF + POSF)
+    arrs = [lay(decode(j["layers"][i], dtypes[i], scale, table), layouts[i]) for i in range(L)]
+    if table is None:
+        ref = lay(np.array(j["ref"], dtype=j.get("ref_dtype", "int64")), j.get("ref_layout", "C"))
+    else:
+        ref = lay(decode(j["ref"], j.get("ref_dtype", "float64"), 1, table), j.get("ref_layout", "C"))
+    inverse = {float(v): c for c, v in enumerate(table)} if table is not None else None
+
+    def val(v, sc):
+        """a result that is one of the layer values (max, min, rank, popularity)"""
+        if inverse is None:
+            return rat(v, sc, 1)
+        v = float(v)
+        if math.isnan(v):
+            return [0, 0]
+        return [inverse[v], 1] if v in inverse else BADR
+
     extras = {"x%d" % i: np.full((H, W), 7.0 + i) for i in range(j.get("extras", 0))}
     dims = ["y", "x"]
     explicit = j.get("explicit_vars", True)
@@ -124,9 +159,10 @@ def run_job(j):
             d["ref"] = (dims, ref)
         return xr.Dataset(d), None
 
-    refc = [[int(round(v / scale)) for v in row] for row in j["ref"]]
+    refc = j["ref"] if table is not None else [[int(round(v / scale)) for v in row] for row in j["ref"]]
     case = {"H": H, "W": W, "L": L, "layers": j["layers"], "ref": j["ref"], "refc": refc, "full": int(j.get("full", 0)),
-            "pairs": int(j.get("pairs", 0)), "tag": j.get("tag", ""), "job": j}
+            "pairs": int(j.get("pairs", 0)), "funcs": [f for f in STATS + REFF[:3] + POSF + REFF[3:] if f in funcs],
+            "haspop": int(bool(j.get("pop", True))), "tag": j.get("tag", ""), "job": j}
     ds, dv = dataset(True)
     case["strides"] = [[int(s // ds[n].data.itemsize) for s in ds[n].data.strides] for n in names]
     # what np.nditer really does with arrays of these layouts (cell ids instead of values)
@@ -154,27 +190,44 @@ def run_job(j):
             errors[label] = "%s: %s" % (type(ex).__name__, str(ex)[:200])
             return None
 
+    skipped = {"h": H, "w": W, "g": []}          # operators not run on this case (never looked at by the judge)
     for f in STATS:
+        if f not in funcs:
+            out[f] = skipped
+            continue
         r = call(f, LOC.cell_stats, None, func=f)
         if r is not None:
-            den = {"mean": L, "median": 2, "std": L * L}.get(f, 1)
-            out[f] = grid(r.data, lambda v, den=den, f=f: rat(v, scale, den, square=(f == "std")))
+            if f in ("max", "min"):
+                out[f] = grid(r.data, lambda v: val(v, scale))
+            else:
+                den = {"mean": L, "median": 2, "std": L * L}.get(f, 1)
+                out[f] = grid(r.data, lambda v, den=den, f=f: rat(v, scale, den, square=(f == "std")))
     for f in REFF:
+        if f not in funcs:
+            out[f] = skipped
+            continue
         r = call(f, getattr(LOC, f), None, ref_var="ref")
         if r is not None:
-            sc = scale if f == "rank" else 1
-            out[f] = grid(r.data, lambda v, sc=sc: rat(v, sc, 1))
+            out[f] = grid(r.data, (lambda v: val(v, scale)) if f == "rank" else (lambda v: rat(v, 1, 1)))
     for f in POSF:
+        if f not in funcs:
+            out[f] = skipped
+            continue
         r = call(f, getattr(LOC, f), None)
         if r is not None:
             out[f] = grid(r.data, lambda v: rat(v, 1, 1))
-    r = call("popularity", LOC.popularity, None, ref_var="ref")
-    if r is not None:
-        case["pop"] = grid(r.data, lambda v: rat(v, scale, 1))
+    case["pop"] = skipped
+    if j.get("pop", True):
+        r = call("popularity", LOC.popularity, None, ref_var="ref")
+        if r is not None:
+            case["pop"] = grid(r.data, lambda v: val(v, scale))
     r = call("combine", LOC.combine, None)
     if r is not None:
         def cid(v):
-            v = float(v)
+            try:
+                v = float(v)
+            except Exception:
+                return -98
             if math.isnan(v):
                 return NAN
             return int(v) if v == int(v) and 0 <= v < 10 ** 6 else -98
@@ -183,11 +236,12 @@ def run_job(j):
         kk = []
         if isinstance(key, dict):
             for k, t in key.items():
-                tt = []
-                for v in t:
-                    q = float(v) / scale
-                    tt.append(int(round(q)) if abs(q - round(q)) < 1e-9 else -98)
-                kk.append([int(k) if float(k) == int(k) else -98, tt])
+                try:
+                    tt = [(inverse.get(float(v), -98) if inverse is not None else small_int(float(v) / scale))
+                          for v in t]
+                except Exception:
+                    tt = [-98]
+                kk.append([small_int(k), tt])
         else:
             errors["combine_key"] = "attrs['key'] missing or not a dict: %r" % (key,)
         case["key"] = kk
